@@ -614,16 +614,22 @@ def cumprod(x, axis=None, out=None, out_like=None, sizing='optimal', method='raw
         axis = kwargs['axis'] if 'axis' in kwargs else None
         precision_cast = (lambda m: np.array(m, dtype=object)) if n_frac >= _n_word_max else (lambda m: m)
         pow_vals = n_frac - np.cumsum(np.ones_like(np.array(x)), axis=axis).astype(int)  * x.n_frac
-        conv_factors = utils.int_array([2**pow_val for pow_val in precision_cast(pow_vals)])
+        if np.min(pow_vals) >= 0:
+            conv_factors = utils.int_array([2**pow_val for pow_val in precision_cast(pow_vals)])
+        else:
+            # some partial products have more fractional bits than the result: those are dropped (float factors)
+            conv_factors = np.array([2.0**int(pow_val) for pow_val in pow_vals.flatten()]).reshape(pow_vals.shape)
         return np.cumprod(x.val, **kwargs) * conv_factors
 
     if not isinstance(x, Fxp):
         x = Fxp(x)
 
     signed = x.signed
-    n_word = x.size * x.n_word
-    n_frac = x.size * x.n_frac
-    n_int = n_word - int(signed) - n_frac
+    # the product of k elements has k*n_frac fractional bits and k*(n_word - n_frac) - sign integer bits, and all the partial products
+    # (k = 1 ... size) are stored in the result: with a negative n_frac or a negative n_int the first one is the one that needs the most
+    n_frac = max(x.n_frac, x.size * x.n_frac)
+    n_int = max(x.n_word - x.n_frac, x.size * (x.n_word - x.n_frac)) - int(signed)
+    n_word = int(signed) + n_int + n_frac
     optimal_size = (signed, n_word, n_int, n_frac)
 
     kwargs['axis'] = axis
